@@ -701,8 +701,15 @@ impl<'a, 'ast> Visit<'ast> for Cx<'a> {
                     if upper && (p.path.segments.len() >= 2 || nm == "Some" || nm == "Ok" || nm == "Err") && ["map", "map_err", "and_then", "or_else", "ok_or_else"].contains(&name.as_str()) {
                         let r = a.span().byte_range();
                         let txt = self.src[r.clone()].to_string();
-                        self.replace(r.clone(), format!("|__x| {}(__x)", txt));
-                        self.note("N5", r.start, &txt, &format!("|__x| {}(__x)", txt));
+                        // an enum variant `T::V` gets a specified eta-expansion so that callers see its result
+                        let rep = if p.path.segments.len() >= 2 {
+                            let ty: Vec<String> = p.path.segments.iter().take(p.path.segments.len() - 1).map(|s| s.ident.to_string()).collect();
+                            format!("|__x| -> (__r: {}) ensures __r == {}(__x) {{ {}(__x) }}", ty.join("::"), txt, txt)
+                        } else {
+                            format!("|__x| {}(__x)", txt)
+                        };
+                        self.replace(r.clone(), rep.clone());
+                        self.note("N5", r.start, &txt, &rep);
                     }
                 }
             }
